@@ -56,6 +56,16 @@ func c18Methods() []c18Method {
 		{"get-graded", func(w *c18World) interface{} { return nil }, ""},
 		{"get-miner-distribution", func(w *c18World) interface{} { return map[string]interface{}{"start": 0, "stop": -3} }, ""},
 		{"get-transaction-status", func(w *c18World) interface{} { return map[string]interface{}{"entryhash": w.convHash} }, ""},
+		{"get-transaction", func(w *c18World) interface{} { return map[string]interface{}{"txid": "0-" + w.convHash} }, ""},
+		{"properties", func(w *c18World) interface{} { return nil }, ""},
+		// the one handler that is not a read: dry runs (nothing is sent anywhere), for the node's own transaction chain and for
+		// a chain it does not track (refused) - a request must not change what the sync loop does
+		{"send-transaction@own-chain/dry-run", func(w *c18World) interface{} {
+			return map[string]interface{}{"chainid": fmt.Sprintf("%x", drive.IDs.TX[:]), "extids": []string{"00"}, "content": "7b7d", "dryrun": true}
+		}, "send-transaction"},
+		{"send-transaction@foreign-chain/dry-run", func(w *c18World) interface{} {
+			return map[string]interface{}{"chainid": "2ac925fe" + strings.Repeat("ab", 28), "extids": []string{"00"}, "content": "7b7d", "dryrun": true}
+		}, "send-transaction"},
 		// requests that name a height the sync loop has not committed yet (the block in flight, and the one after it)
 		{"get-pegnet-rates@next", func(w *c18World) interface{} { return map[string]interface{}{"height": w.h0 + 1} }, "get-pegnet-rates"},
 		{"get-pegnet-rates@next+1", func(w *c18World) interface{} { return map[string]interface{}{"height": w.h0 + 2} }, "get-pegnet-rates"},
@@ -146,6 +156,9 @@ func newC18World() *c18World {
 				panic(err)
 			}
 			w.ref[h][m.name] = c18Call(newAPI(rd), m.rpc(), m.params(w))
+			if os.Getenv("PVMC_DEBUG") != "" && h == w.h0 {
+				fmt.Fprintf(os.Stderr, "DEBUG ref %s: %s\n", m.name, clipStr(w.ref[h][m.name], 160))
+			}
 			rd.Close()
 			os.RemoveAll(fmt.Sprintf("%s/ref-%d-%s", w.dir, h, m.name))
 		}
